@@ -183,6 +183,11 @@ int main(int argc, char **argv) {
           auto ia = regIx.find(jstr(o, "a")), ib = regIx.find(jstr(o, "b"));
           if (ia == regIx.end() || ib == regIx.end()) { setupErrors.push_back("equal: unknown region"); continue; }
           RegionDecl &da = regs[ia->second], &db = regs[ib->second]; int64_t n = jint(o, "cells", std::min(da.cells, db.cells)), ao = jint(o, "aoff", 0), bo = jint(o, "boff", 0);
+          if (jbool(o, "diagnose_permutation", false)) { // is region a a rearrangement of the expected cells?
+            std::multiset<std::string> sa, sb; Normaliser NP; NP.cap = cmp.N.cap; NP.C = &cmp.C;
+            for (int64_t c = 0; c < n; c++) { sa.insert(polyStr(NP.norm(cellTerm(da, ao + c), da.e.fp), 1u << 30)); sb.insert(polyStr(NP.norm(cellTerm(db, bo + c), db.e.fp), 1u << 30)); }
+            if (!NP.capped && !NP.overflow) out["permuted"] = (sa == sb);
+          }
           for (int64_t c = 0; c < n; c++) {
             int ta = cellTerm(da, ao + c), tb = cellTerm(db, bo + c);
             CmpResult r = cmp.compare(ta, tb, mode, da.e.fp, da.e.esz);
